@@ -547,6 +547,14 @@ def run(tier, seed):
         lines.append(f"sel eqast {H(a)} {H(impl[k][1])}" if impl[k][0] == "ok" else "ping")
         lines.append(f"sel equiv {H(a)} {H(impl[k][1])} {seed * 47 + k} {NR // 2} 0" if impl[k][0] == "ok" else "ping")
     outs = driver(lines)
+    # the model's own printer/parser round trip (C11_parse_print_roundtrip_statement), evaluated on every case
+    rt = driver([f"sel eqast {H(a)} {outs[3 * k].split(' ')[1]}" if outs[3 * k].startswith("ok ") else "ping"
+                 for k, a in enumerate(pcases)])
+    for k, a in enumerate(pcases):
+        if rt[k] == "ok 0":
+            disagree({"case": f"model parse/print round trip on {a}", "model_observation": dec(outs[3 * k]), "impl_observation": a})
+        elif rt[k] == "ok 1":
+            ck.hist("parse:model-roundtrip-ok")
     for k, a in enumerate(pcases):
         g, m, same, eqv = impl[k], outs[3 * k], outs[3 * k + 1], outs[3 * k + 2]
         case = f"selector-parse({q(a)})"
